@@ -154,7 +154,7 @@ def run_graph(pid, tier, plan, replay=None):
             "transitions": max(1, tlc_trans + val_states),
             "design_checks": design,
             "trace_validation_states": val_states,
-            "traces_validated_against_impl": nscripts - len(bad_scripts),
+            "traces_validated_against_impl": max(0, nscripts - len(bad_scripts)),
             "scripts_executed": nscripts,
             "evaluations": events,
             "distinct_nontrivial": len(distinct),
@@ -167,7 +167,8 @@ def run_graph(pid, tier, plan, replay=None):
             "violating_clauses": sorted({c for (_, _, _, c) in violations}),
             "exhaustive": bool(plan.get("exhaustive", False)),
         }
-        write_evidence(pid, tier, "model_checking", coverage, plan.get("assumptions", []), time.time() - t0, len(violations))
+        if not replay:
+            write_evidence(pid, tier, "model_checking", coverage, plan.get("assumptions", []), time.time() - t0, len(violations))
         for k, n in sorted(knowns.items()):
             print("KNOWN-FINDING: property=%s %s (%d occurrences) %s" % (pid, k, n, known[k]))
         if violations:
